@@ -1,5 +1,6 @@
 import SynKitProofs.ReactorInvLemmas
 import SynKitProofs.Props.C05
+import SynKitProofs.ReactorLink
 /-!
 # C04 — applying a reaction's own template regenerates it, forwards and backwards
 
@@ -26,7 +27,9 @@ map numbers forgotten, i.e. `G.relabel f` for some injective `f` (any SMILES rew
    for centre templates of reactions like phosphate protonation — finding F10).
 
 Steps 1 and 2 are proved here for all inputs; step 3 is a named hypothesis because the glue step
-is modelled by C03.  Hence `own_template_regenerates_partial`.  `SubPattern` is decidable and is
+is modelled by C03.  Hence `own_template_regenerates_partial`.  The last section of this file
+discharges step 3 for the concrete glue model under `RcComplete`
+(`C04.glueRebuilds_concrete_partial`, `C04.own_template_regenerates_concrete_partial`).  `SubPattern` is decidable and is
 evaluated by the driver (`rinv.subpattern`, `rinv.id_in_monos`) on the graphs the implementation
 really builds, see `harness/props/c04.py`.
 -/
@@ -229,5 +232,179 @@ example : ∃ r ∈ toyY.results .all false (ethanol.relabel (· + 5)) centreCO,
   exact ⟨[(2, 7), (3, 8)], by decide, rfl⟩
 
 end Examples
+
+/-! ## Instantiation with the concrete glue model of C03 (`SynKitProofs/ReactorLink.lean`)
+
+Step 3 (`GlueRebuilds`) for the concrete reactor `ReactorLink.concrete`, from the specification
+`ReactorLink.OwnTemplate G I T` ("`T` is a template of the reaction `I` of the reactant graph `G`")
+and `ReactorLink.RcComplete I T` (DESIGN §5 C04: every atom whose hydrogen count or charge differs
+between the sides is covered by the template).  With steps 1 and 2 already discharged for the
+concrete reactor (`C05`), this gives `C04.own_template_regenerates_concrete_partial`: the reaction is
+among the results of applying its own template to its own (renumbered) reactants. -/
+section Concrete
+open SynKit.Reactor SynKit.ReactorLink
+
+theorem relabel_id (G : LGraph) : G.relabel id = G := by
+  cases G with
+  | mk ns es => simp [LGraph.relabel]
+
+theorem relabelPat_id (m : Mapping) : relabelPat id m = m := by
+  simp [relabelPat]
+
+theorem idMap_concrete_pattern (maxGroup : Nat) (comp : LGraph → LGraph → List Mapping) (T : LGraph)
+    (hT : WFTemplate T) : idMap ((concrete maxGroup comp).pattern false T) = idMap T := by
+  show idMap (noMap (left (orient false T))) = idMap T
+  unfold idMap
+  rw [noMap_ids]
+  show (left T).ids.map _ = _
+  rw [left_ids T hT]
+
+/-- **C04 step 3 for the concrete reactor (`_partial`)**: `GlueRebuilds` holds — gluing the renumbered
+reactant graph with the reaction's own template along the renumbered identity match renders a
+reaction isomorphic to `I` — given `OwnTemplate G I T` and `RcComplete I T`.  (Gap: see
+`ReactorLink.glue_own_template_partial`.) -/
+theorem C04.glueRebuilds_concrete_partial (maxGroup : Nat) (comp : LGraph → LGraph → List Mapping)
+    (G I T : LGraph) (f : Nat → Nat) (hf : Function.Injective f)
+    (h : OwnTemplate G I T) (hrc : RcComplete I T) :
+    GlueRebuilds (concrete maxGroup comp) false G T f I := by
+  have hiso := glue_own_template_partial G I T h hrc
+  have A := assign_of_mono G T (idMap T) h.hT h.hid
+  have hW : (glue G T (idMap T)).WF := glue_wf G T _ h.hG.1 h.hT.1 A.inj A.img
+  have hglue := concrete_glue_relabel maxGroup comp hf (π := id) Function.injective_id false G T (idMap T)
+  rw [relabel_id, relabelPat_id] at hglue
+  have hone : (concrete maxGroup comp).glue false G T (idMap T) = [glue G T (idMap T)] :=
+    concrete_glue_of_mono maxGroup comp false G T _ h.hG h.hT h.hid
+  rw [hone] at hglue
+  refine ⟨(glue G T (idMap T)).relabel f, ?_, ?_⟩
+  · rw [idMap_concrete_pattern maxGroup comp T h.hT, hglue]
+    exact List.mem_singleton.2 rfl
+  · exact itsEquiv_equivalence.trans (itsEquiv_relabel _ hW f hf) (Or.inr ⟨hW, h.hI, _, hiso⟩)
+
+/-- **C04, concrete, exhaustive strategy (`_partial`).** For the modelled implicit path with the
+repaired pruning: if `T` is a template of the reaction `I` of the reactant graph `G`
+(`OwnTemplate`) and covers every atom whose hydrogen count or charge changes (`RcComplete`), then
+for every renumbering `f` of the reactants the reaction is among the results of applying `T` to
+them, up to isomorphism of ITS graphs.  All three steps are discharged for the concrete stages: the
+identity match is enumerated and renumbers (`C05`), pruning keeps an equivalent match
+(`C05.prune_preserves_results_concrete`), the glue step rebuilds the reaction
+(`C04.glueRebuilds_concrete_partial`).  Missing for the full statement of C04: that the graphs
+`ITSConstruction` / `get_rc` / `SynRule` build satisfy `OwnTemplate` (in particular its clause `lab`:
+no change of aromatic flag), the backward direction through `invert`, the explicit-hydrogen path,
+and the strategies other than the exhaustive one (the component-aware one fails by design when the
+substrate has more components than the pattern). -/
+theorem C04.own_template_regenerates_concrete_partial (maxGroup : Nat) (comp : LGraph → LGraph → List Mapping)
+    (G I T : LGraph) (f : Nat → Nat) (hf : Function.Injective f)
+    (h : OwnTemplate G I T) (hrc : RcComplete I T) :
+    ∃ r ∈ (concrete maxGroup comp).results .all false (G.relabel f) T, ItsEquiv r I := by
+  have hE := itsEquiv_equivalence
+  -- step 1: the renumbered identity is a raw match
+  have hid : idMap T ∈ allMonos monoSel G (left T) :=
+    (mem_allMonos monoSel G (left T) (left_wf T h.hT) _).2 h.hid
+  have hraw : relabelHost f (idMap T) ∈
+      (concrete maxGroup comp).search .all (G.relabel f) ((concrete maxGroup comp).pattern false T) := by
+    rw [concrete_search_all]
+    exact (allMonos_relabel_host monoSel G _ f hf _).2 ⟨_, hid, rfl⟩
+  -- step 3 on the raw list
+  obtain ⟨r, hr, hrt⟩ := C04.glueRebuilds_concrete_partial maxGroup comp G I T f hf h hrc
+  rw [idMap_concrete_pattern maxGroup comp T h.hT] at hr
+  have hru : r ∈ (concrete maxGroup comp).resultsUnpruned .all false (G.relabel f) T :=
+    List.mem_flatMap.2 ⟨_, hraw, hr⟩
+  -- step 2: pruning keeps an equivalent result
+  have hp := C05.prune_preserves_results_concrete maxGroup comp false (G.relabel f) T
+    ((concrete maxGroup comp).search .all (G.relabel f) ((concrete maxGroup comp).pattern false T))
+    (fun m hm hH hT' => by
+      rw [concrete_search_all] at hm
+      exact (mem_allMonos monoSel _ _ (left_wf _ hT') m).1 hm)
+  obtain ⟨r', hr', e⟩ := hp.2 r hru
+  exact ⟨r', hr', hE.trans (hE.symm e) hrt⟩
+
+/-! ### Non-vacuity: a substitution with a spectator atom -/
+
+/-- Reactants `C–Br . N . O` (atoms 1, 2, 3 and the spectator 4). -/
+private def oG : LGraph :=
+  { nodes := [(1, [("element", .str "C"), ("hcount", .num 6), ("charge", .num 0)]),
+              (2, [("element", .str "Br"), ("hcount", .num 0), ("charge", .num 0)]),
+              (3, [("element", .str "N"), ("hcount", .num 4), ("charge", .num 0)]),
+              (4, [("element", .str "O"), ("hcount", .num 4), ("charge", .num 0)])]
+    edges := [(1, 2, [("order", .num 2)])] }
+
+private def lbl (e : String) (h : Int) : Val := .tup [.str e, .bool false, .num h, .num 0, .tup []]
+
+/-- The reaction: N–H + C–Br → N–C + H–Br; water looks on. -/
+private def oI : LGraph :=
+  { nodes := [(1, [("typesGH", .tup [lbl "C" 6, lbl "C" 6])]), (2, [("typesGH", .tup [lbl "Br" 0, lbl "Br" 2])]),
+              (3, [("typesGH", .tup [lbl "N" 4, lbl "N" 2])]), (4, [("typesGH", .tup [lbl "O" 4, lbl "O" 4])])]
+    edges := [(1, 2, [("order", .tup [.num 2, .num 0])]), (3, 1, [("order", .tup [.num 0, .num 2])])] }
+
+/-- Its centre template, drawn on the reaction's atoms, hydrogen counts reduced to those that take part. -/
+private def oT : LGraph :=
+  { nodes := [(3, [("typesGH", .tup [lbl "N" 2, lbl "N" 0])]), (1, [("typesGH", .tup [lbl "C" 0, lbl "C" 0])]),
+              (2, [("typesGH", .tup [lbl "Br" 0, lbl "Br" 2])])]
+    edges := [(3, 1, [("order", .tup [.num 0, .num 2]), ("standard_order", .num (-2))]),
+              (1, 2, [("order", .tup [.num 2, .num 0]), ("standard_order", .num 2)])] }
+
+private theorem oOwn : OwnTemplate oG oI oT where
+  hG := by decide
+  hT := by decide
+  hI := by decide
+  hid := (isMonoB_iff _ _ _ _).1 (by decide)
+  ids := by
+    have : oI.ids = oG.ids := by decide
+    intro v; rw [this]
+  len := by decide
+  hnum := by decide
+  lab := by
+    have : oG.ids = [1, 2, 3, 4] := by decide
+    rw [this]
+    intro v hv
+    simp only [List.mem_cons, List.mem_nil_iff, or_false] at hv
+    rcases hv with rfl | rfl | rfl | rfl
+    · exact ⟨6, .num 0, by decide⟩
+    · exact ⟨2, .num 0, by decide⟩
+    · exact ⟨2, .num 0, by decide⟩
+    · exact ⟨4, .num 0, by decide⟩
+  tpl := by decide
+  gEdge := by
+    intro e0 he0
+    have : oG.edges = [(1, 2, [("order", .num 2)])] := rfl
+    rw [this, List.mem_singleton] at he0
+    subst he0
+    refine ⟨[("order", .tup [.num 2, .num 0])], by decide, ?_⟩
+    intro hno
+    have := hno (1, 2, [("order", .tup [.num 2, .num 0]), ("standard_order", .num 2)]) (by decide)
+    revert this; decide
+  iEdge := by decide
+  tEdge := by
+    intro te hte
+    have : oT.edges = [(3, 1, [("order", .tup [.num 0, .num 2]), ("standard_order", .num (-2))]),
+              (1, 2, [("order", .tup [.num 2, .num 0]), ("standard_order", .num 2)])] := rfl
+    rw [this] at hte
+    simp only [List.mem_cons, List.mem_nil_iff, or_false] at hte
+    rcases hte with rfl | rfl
+    · exact ⟨[("order", .tup [.num 0, .num 2])], by decide, by decide, by decide⟩
+    · exact ⟨[("order", .tup [.num 2, .num 0])], by decide, by decide, by decide⟩
+
+/-- The hypotheses of `C04.own_template_regenerates_concrete_partial` are satisfiable on a
+non-trivial input (two changed bonds, a hydrogen migration, an atom outside the template) … -/
+example : OwnTemplate oG oI oT ∧ RcComplete oI oT := ⟨oOwn, by unfold RcComplete; decide⟩
+
+/-- … and its conclusion is what evaluation of the model gives: after renumbering the reactants
+(+7) the one result is the renumbered reaction, label for label and bond for bond. -/
+example : ((concrete 5040 (allMonos monoSel)).results .all false (oG.relabel (· + 7)) oT).map
+      (fun r => (r.nodes.map fun p => (p.1, Attrs.get p.2 "typesGH"), r.edges.map fun e => (e.1, e.2.1, Attrs.get e.2.2 "order"))) =
+    [((oI.relabel (· + 7)).nodes.map fun p => (p.1, Attrs.get p.2 "typesGH"),
+      [(8, 9, .tup [.num 2, .num 0]), (10, 8, .tup [.num 0, .num 2])])] := by decide
+
+/-- `RcComplete` cannot be dropped: with the spectator's charge changing in the reaction (an atom
+outside the template whose label differs between the sides — the shape of finding F10) the glued
+graph keeps the reactant label there, so it is not the reaction. -/
+example :
+    let I' : LGraph := { oI with nodes := oI.nodes.map fun p =>
+      if p.1 = 4 then (4, [("typesGH", Val.tup [lbl "O" 4, Val.tup [.str "O", .bool false, .num 2, .num (-2), .tup []]])]) else p }
+    ¬ RcComplete I' oT ∧
+      Attrs.get ((glue oG oT (idMap oT)).attrs 4) "typesGH" ≠ Attrs.get (I'.attrs 4) "typesGH" := by
+  refine ⟨by unfold RcComplete; decide, by decide⟩
+
+end Concrete
 
 end SynKit.ReactorInv
